@@ -409,6 +409,62 @@ fn raster_adjacent_scans_partition_rows() {
     }
 }
 
+// @ob props=C04,C02 tier=quick kind=B cfg=core-std timeout=2400
+// @fn tri_fill ; scan ; <ScanlineIter<V> as Iterator>::next
+// @bound thin triangles inside one pixel row that straddle its centre line: two vertices on y = k + 1/4, one on y = k + 3/4 (or mirrored), x coordinates integers 0..3, k in {0, 1}; every vertex order; 3x2 pixel grid, V = ()
+// @clause sub-pixel-high triangles are not lost: against an exact integer edge-function oracle (coordinates times 4) every centre strictly inside is covered exactly once, every centre strictly outside and off the edges is not covered, rows arrive in increasing order inside the grid and the x-range length equals the fragment count
+#[cfg(not(verif_skip_raster_tri_fill_thin_rows))]
+#[kani::proof]
+#[kani::unwind(8)]
+fn raster_tri_fill_thin_rows() {
+    let xs: [u8; 3] = kani::any();
+    kani::assume(xs[0] <= 3 && xs[1] <= 3 && xs[2] <= 3);
+    let k: u8 = kani::any();
+    kani::assume(k <= 1);
+    let odd: u8 = kani::any(); // which vertex sits on the other side of the centre line
+    kani::assume(odd < 3);
+    let up: bool = kani::any();
+    // y in quarter pixels: 4k+1 or 4k+3
+    let yq = |i: u8| -> i32 { 4 * k as i32 + if (i == odd) == up { 1 } else { 3 } };
+    let vtx = |i: u8| crate::geom::vertex(pt3(xs[i as usize] as F, yq(i) as F * 0.25, 1.0), ());
+    let mut cov = [[0u8; 3]; 2];
+    let mut last_y: i32 = -1;
+    let mut ok = true;
+    tri_fill([vtx(0), vtx(1), vtx(2)], |sl: Scanline<()>| {
+        ok = ok && (sl.y as i32) > last_y && sl.y < 2 && sl.xs.end <= 3;
+        last_y = sl.y as i32;
+        let len = if sl.xs.end >= sl.xs.start { sl.xs.end - sl.xs.start } else { 0 };
+        ok = ok && sl.vs.n == Some(len as u32);
+        let mut x = sl.xs.start;
+        while x < sl.xs.end && x < 3 && sl.y < 2 {
+            cov[sl.y][x] += 1;
+            x += 1;
+        }
+    });
+    kani::cover!(cov[1][1] == 1);
+    let p = |i: u8| (4 * xs[i as usize] as i32, yq(i));
+    let edge = |a: (i32, i32), b: (i32, i32), c: (i32, i32)| (b.0 - a.0) * (c.1 - a.1) - (b.1 - a.1) * (c.0 - a.0);
+    let on_seg = |a: (i32, i32), b: (i32, i32), c: (i32, i32)| {
+        edge(a, b, c) == 0 && c.0 >= a.0.min(b.0) && c.0 <= a.0.max(b.0) && c.1 >= a.1.min(b.1) && c.1 <= a.1.max(b.1)
+    };
+    let mut py = 0;
+    while py < 2 {
+        let mut px = 0;
+        while px < 3 {
+            let c = (4 * px as i32 + 2, 4 * py as i32 + 2);
+            let (e0, e1, e2) = (edge(p(0), p(1), c), edge(p(1), p(2), c), edge(p(2), p(0), c));
+            let exempt = on_seg(p(0), p(1), c) || on_seg(p(1), p(2), c) || on_seg(p(2), p(0), c);
+            let inside = (e0 > 0 && e1 > 0 && e2 > 0) || (e0 < 0 && e1 < 0 && e2 < 0);
+            if !exempt {
+                ok = ok && cov[py][px] == if inside { 1 } else { 0 };
+            }
+            px += 1;
+        }
+        py += 1;
+    }
+    assert!(ok);
+}
+
 // @ob props=C04,C02 tier=thorough kind=B cfg=core-std timeout=7200
 // @fn tri_fill ; scan ; <ScanlineIter<V> as Iterator>::next
 // @bound every triangle (degenerate ones included, all 5^6 vertex triples, hence all vertex orders) on the half-pixel lattice [0,2]^2, 2x2 pixels, V = ()
